@@ -105,6 +105,11 @@ def plan(prop):
         import ieee_obligations as io
         for la, lb in (((1, 1), (2, 2), (1, 2)) if Q else ((1, 1), (2, 2), (1, 2), (2, 1), (3, 3), (3, 1))):
             obs.append((core, lambda ctx, la=la, lb=lb: io.ob_reducer(ctx, la, lb)))
+    if prop == 'C10':
+        import pragmatic_obligations as po
+        for template, dims in ((('pd', 1), ('mixed', 1), ('empty', 1), ('p-only', 1), ('pd', 2)) if Q else
+                               (('pd', 1), ('mixed', 1), ('empty', 1), ('p-only', 1), ('pd', 2), ('mixed', 2), ('pd', 3))):
+            obs.append(('vrp-pragmatic', lambda ctx, t=template, d=dims: po.ob_job_rules(ctx, t, d)))
     if prop == 'C18':
         import ieee_obligations as io
         obs.append(('rosomaxa', lambda ctx: io.ob_max_generation(ctx)))
